@@ -118,7 +118,7 @@ pub fn check_function(st: &Stratum, sidx: usize, fidx: usize, body: &Expr, progr
             Ran::Error(k) => {
                 *l.error_kinds.entry(k.clone()).or_default() += 1;
                 let kind = k.split(':').next().unwrap_or("");
-                if STRUCTURAL.contains(&kind) && mode != Mode::C10 && mode != Mode::C01 {
+                if (STRUCTURAL.contains(&kind) || k.ends_with(":non-data-operand")) && mode != Mode::C10 && mode != Mode::C01 {
                     l.violations.push(Violation {
                         signature: format!("structural-error|{}|{}", kind, class_of(body)),
                         what: format!("a well-typed function fails with the structural machine error {k}:\n{}args: {}", function_source("f", st, body), args.iter().map(show_val).collect::<Vec<_>>().join(", ")),
@@ -361,6 +361,16 @@ pub fn run(tier: Tier, replay: Option<String>) -> i32 {
 fn replay_case(path: &str) -> i32 {
     let doc: serde_json::Value = serde_json::from_str(&std::fs::read_to_string(path).expect("read")).expect("json");
     let case = &doc["case"];
+    if case["engine"] == "c06-untyped" {
+        let vs = crate::c06u::replay(case["body"].as_str().unwrap_or("")).unwrap_or_default();
+        for v in &vs {
+            println!("VIOLATION property=C06 replay={path}\n  {}", v.what);
+        }
+        if vs.is_empty() {
+            println!("no violation on replay");
+        }
+        return if vs.is_empty() { 0 } else { 1 };
+    }
     let (Some(si), Some(fi)) = (case["stratum_index"].as_u64(), case["function_index"].as_u64()) else {
         println!("replay file has no function index; source:\n{}", case["source"].as_str().unwrap_or(""));
         return 2;
@@ -404,6 +414,7 @@ pub fn run_c06(tier: Tier, replay: Option<String>) -> i32 {
     }
     let mut run = Run::new("C06", tier);
     run_strata(&mut run, tier, Mode::C06);
+    crate::c06u::part(&mut run, tier);
     let kinds = run.coverage.get("machine_error_kinds").cloned().unwrap_or_default();
     let n_allowed = kinds.as_object().map(|o| o.len()).unwrap_or(0);
     if n_allowed < 2 {
@@ -411,7 +422,7 @@ pub fn run_c06(tier: Tier, replay: Option<String>) -> i32 {
     }
     run.set("distinct_nontrivial", run.get("functions_with_two_or_more_distinct_results").max(n_allowed as u64));
     run.set("forbidden_error_kinds", json!(STRUCTURAL));
-    run.set("rule", "every function body of the 14 strata (accepted by the real type checker) x the full cartesian product of valid encodings of its parameter types (Data parameters: the whole Data universe); every evaluation is classified: a structural machine error (type mismatch, non-function application, open term, missing case branch, non-constant where a constant is needed, ...) or a panic is a violation; division by zero, empty list, failed expect / deserialisation, explicit fail are permitted");
+    run.set("rule", "(a) every function body of the 14 strata (accepted by the real type checker) x the full cartesian product of valid encodings of its parameter types (Data parameters: the whole Data universe); every evaluation is classified: a structural machine error (type mismatch, non-function application, open term, missing case branch, non-constant where a constant is needed, ...) or a panic is a violation; division by zero, empty list, failed expect / deserialisation (of a Data operand), explicit fail are permitted; (b) untyped family: every form (calls of generic/Data/Int helpers, let/expect annotations at 13 types, pattern bindings incl. alternative patterns, constructors, accessors, record updates, operators, branches, lambdas) over every atom (13 parameters of different types + literals), and again over every *accepted* level-1 expression - the real checker alone decides which candidates are programs; accepted ones are compiled and run on the product of valid encodings of the parameters they mention");
     run.assume("arguments are valid encodings of the declared parameter types (what the type system guarantees the caller)");
     run.finish()
 }
@@ -419,6 +430,16 @@ pub fn run_c06(tier: Tier, replay: Option<String>) -> i32 {
 fn replay_c06(path: &str) -> i32 {
     let doc: serde_json::Value = serde_json::from_str(&std::fs::read_to_string(path).expect("read")).expect("json");
     let case = &doc["case"];
+    if case["engine"] == "c06-untyped" {
+        let vs = crate::c06u::replay(case["body"].as_str().unwrap_or("")).unwrap_or_default();
+        for v in &vs {
+            println!("VIOLATION property=C06 replay={path}\n  {}", v.what);
+        }
+        if vs.is_empty() {
+            println!("no violation on replay");
+        }
+        return if vs.is_empty() { 0 } else { 1 };
+    }
     let (Some(si), Some(fi)) = (case["stratum_index"].as_u64(), case["function_index"].as_u64()) else {
         println!("replay file has no function index");
         return 2;
